@@ -132,6 +132,7 @@ def check(run):
 MUTANTS = [
     Mutant("clienttls-close-relies-on-parent-setter", C, "ClientTls.close", "            self.accepted = False\n            self.connected = False", "            self.connected = False", {"C10.R5"}),
     Mutant("silent-client-close-relies-on-own-setter", C, "Client.close", "            self.accepted = False\n            self.connected = False", "            self.connected = False", silent=True),
+    Mutant("handshake-handler-queries-dead-socket", S, "RemoterTls.handshake", "logger.error(\"OSError during tls handshake of %s with %s.\\n%s\\n\", self.ha, self.ca, ex)", "logger.error(\"OSError during tls handshake of %s with %s.\\n%s\\n\", self.ha, self.cs.getpeername(), ex)", {"C10.R2"}),
     Mutant("clienttls-send-half-renamed-local", C, "ClientTls.send", "            if ex.args[0] in (ssl.SSL_ERROR_WANT_READ, ssl.SSL_ERROR_WANT_WRITE):\n                result = 0", "            if ex.args[0] in (ssl.SSL_ERROR_WANT_READ, ssl.SSL_ERROR_WANT_WRITE):\n                count = 0", {"C10.R4"}),
     Mutant("remoter-drop-econnreset", S, "Remoter.receive", "elif ex.args[0] in (errno.ECONNRESET,\n", "elif ex.args[0] in (\n", {"C10.R1"}, canary=True),
     Mutant("client-cutoff-raises", C, "Client.send", "                self.cutoff = True  # this signals need to close/reopen connection\n                count = 0",
